@@ -63,4 +63,40 @@ mod verif_witness_web_client {
             assert_eq!(r.1.last().map(|s| s.starts_with("ERR")), Some(!on_boundary), "body cut after {} bytes: {:?}", cut, r);
         }
     }
+    // an inner body whose Data is a NON-CONTIGUOUS Buf (Chain): each chunk is delivered as two halves chained together
+    struct Chained { chunks: VecDeque<Vec<u8>> }
+    impl Body for Chained {
+        type Data = bytes::buf::Chain<Bytes, Bytes>;
+        type Error = Status;
+        fn poll_frame(mut self: Pin<&mut Self>, _cx: &mut Context<'_>) -> Poll<Option<Result<Frame<Self::Data>, Status>>> {
+            match self.chunks.pop_front() {
+                Some(c) => { let h = c.len() / 2; Poll::Ready(Some(Ok(Frame::data(Bytes::from(c[..h].to_vec()).chain(Bytes::from(c[h..].to_vec())))))) }
+                None => Poll::Ready(None),
+            }
+        }
+    }
+    #[test]
+    fn a_non_contiguous_inner_buffer_loses_nothing() {
+        let b = body();
+        let one = drain(vec![b.clone()]);
+        let rt = tokio::runtime::Builder::new_current_thread().build().unwrap();
+        for cut in 1..b.len() {
+            let got = rt.block_on(async {
+                let mut call = Box::pin(GrpcWebCall::client_response(Chained { chunks: vec![b[..cut].to_vec(), b[cut..].to_vec()].into() }));
+                let (mut data, mut rest) = (vec![], vec![]);
+                for _ in 0..64 {
+                    match std::future::poll_fn(|cx| call.as_mut().poll_frame(cx)).await {
+                        None => { rest.push("END".to_string()); break; }
+                        Some(Err(e)) => { rest.push(format!("ERR {:?}", e.code())); break; }
+                        Some(Ok(f)) => {
+                            if f.is_data() { data.extend(f.into_data().unwrap().to_vec()); }
+                            else { let t = f.into_trailers().unwrap(); let mut v: Vec<String> = t.iter().map(|(k, v)| format!("{}={}", k, v.to_str().unwrap())).collect(); v.sort(); rest.push(format!("TRAILERS {:?}", v)); }
+                        }
+                    }
+                }
+                (data, rest)
+            });
+            assert_eq!(got, one, "chained halves, boundary at {}", cut);
+        }
+    }
 }
